@@ -206,3 +206,375 @@ def self_variants(prog, an):
             continue
         out[key] = [(v["name"], int(v["discr"]) if v["discr"] is not None else i) for i, v in enumerate(adt["variants"])]
     return out
+
+
+# ====================================================================== canonical consume / emit sequences
+
+def _base_and_const(off):
+    """offset Lin -> (base symbol or None, constant) when it has the shape base + c"""
+    if off is None:
+        return None
+    if not off.t:
+        return (None, off.c)
+    if len(off.t) == 1 and off.t[0][1] == 1:
+        return (off.t[0][0], off.c)
+    return ("?" + repr(off), 0)
+
+
+def parse_sequence(ctx, an):
+    """ordered consume events of a parse body:
+       {"kind": int|byte|sub|raw|rest, "width", "order", "type", "base", "c", "bi", "field"}"""
+    b = an.b
+    data_root = "_1"
+    evs = []
+    for r in an.reads:
+        if r["root"] != data_root:
+            continue
+        bc = _base_and_const(r["off"])
+        evs.append({"kind": "int", "width": r["width"], "order": r["order"], "base": bc[0], "c": bc[1], "bi": r["bi"], "sym": r["sym"],
+                    "signed": r.get("signed")})
+    covered = set()
+    for e in an.elems:
+        if e["root"] != data_root:
+            continue
+        bc = _base_and_const(e["off"])
+        evs.append({"kind": "int", "width": 1, "order": "BE", "base": bc[0], "c": bc[1], "bi": e["bi"], "sym": e["sym"]})
+    # sub-parsers
+    for cs, info in an.pending.items():
+        pc = info.get("parse_call")
+        if not pc:
+            continue
+        c = pc["callee"]
+        if c["name"] != "parse":
+            continue
+        cur = pc["argmap"].get("(*_2)@entry") if pc.get("argmap") else None
+        if cur is None:
+            continue
+        bc = _base_and_const(cur)
+        tshort = zone._short((c.get("impl") or {}).get("self")) if c.get("impl") else None
+        evs.append({"kind": "sub", "type": tshort or "dyn", "base": bc[0], "c": bc[1], "bi": pc["bi"], "cs": cs})
+    # raw slices: those not consumed by an integer read and not merely a window around other events
+    ints = [(e["base"], e["c"], e["width"]) for e in evs if e["kind"] == "int"]
+    for s in an.slices:
+        if s["root"] != data_root:
+            continue
+        bc = _base_and_const(s["off"])
+        ln = s["len"]
+        if s["kind"] == "rangefrom":
+            evs.append({"kind": "rest", "base": bc[0], "c": bc[1], "bi": s["bi"], "sid": s["sid"]})
+            continue
+        if s["kind"] in ("rangeto", "rangefull"):
+            continue          # prefix windows handed to sub-parsers
+        if ln.is_const():
+            w = ln.c
+            if (bc[0], bc[1], w) in ints:
+                continue
+            inside = [i for i in ints if i[0] == bc[0] and bc[1] <= i[1] and i[1] + i[2] <= bc[1] + w]
+            if inside:
+                continue
+            evs.append({"kind": "raw", "width": w, "base": bc[0], "c": bc[1], "bi": s["bi"], "sid": s["sid"]})
+        else:
+            evs.append({"kind": "raw", "width": None, "lenexpr": ln, "base": bc[0], "c": bc[1], "bi": s["bi"], "sid": s["sid"]})
+    # drop duplicate byte reads of the same position (a length byte is read several times)
+    seen = set()
+    out = []
+    for e in sorted(evs, key=lambda x: (x["bi"], x["c"])):
+        k = (e["kind"], e["base"], e["c"], e.get("width"))
+        if k in seen:
+            continue
+        seen.add(k)
+        out.append(e)
+    return out
+
+
+def segment_order(an, evs):
+    """rank of each offset base: the entry cursor first, then the cursor left by each sub-parser in program order,
+       loop-carried cursors (phi) form repeat groups"""
+    rank = {"(*_2)@entry": 0, None: 0}
+    subs = sorted([e for e in evs if e["kind"] == "sub"], key=lambda x: x["bi"])
+    n = 1
+    for e in subs:
+        info = an.pending.get(e["cs"], {}).get("parse_call")
+        cur = info.get("cursor") if info else None
+        if cur and cur[2] is not None:
+            after = cur[2].t[0][0] if cur[2].t else None
+            if after not in rank:
+                rank[after] = n
+                n += 1
+    return rank
+
+
+def ordered(an, evs):
+    rank = segment_order(an, evs)
+    top, loops = [], {}
+    for e in evs:
+        base = e["base"]
+        if isinstance(base, str) and base.startswith("phi("):
+            loops.setdefault(base, []).append(e)
+        elif base in rank:
+            top.append(e)
+        else:
+            e = dict(e)
+            e["unplaced"] = True
+            top.append(e)
+    top.sort(key=lambda e: (rank.get(e["base"], 99), e["c"], 0 if e["kind"] != "sub" else 1))
+    reps = []
+    for base, es in loops.items():
+        es.sort(key=lambda e: (e["c"], e["bi"]))
+        reps.append((base, es))
+    return top, reps
+
+
+def fields_of_ok(an):
+    """symbol / call-site -> field name from the aggregate returned on the Ok path"""
+    m = {}
+    for bi, st, v in an.ok_points:
+        if not (v and v[0] == "adt" and v[2] == "Ok" and v[3] and v[3][0] and v[3][0][0] == "adt"):
+            continue
+        agg = v[3][0]
+        for fn, fv in zip(agg[4], agg[3]):
+            if fv is None:
+                continue
+            if fv[0] == "lin" and len(fv[1].t) == 1:
+                m[fv[1].t[0][0]] = fn
+                d = an.derived.get(fv[1].t[0][0])
+                if d is not None and len(d.t) == 1:
+                    m[d.t[0][0]] = fn
+            elif fv[0] == "parsed":
+                m[fv[1]] = fn
+            elif fv[0] == "arr":
+                m[fv[1]] = fn
+            elif fv[0] == "adt":
+                stack = [fv]
+                while stack:
+                    x = stack.pop()
+                    if x is None:
+                        continue
+                    if x[0] == "slice":
+                        m[x[1]] = fn
+                    elif x[0] == "adt":
+                        stack.extend(x[3])
+                    elif x[0] == "lin" and len(x[1].t) == 1:
+                        m.setdefault(x[1].t[0][0], fn)
+    return m
+
+
+def describe_parse(ctx, an):
+    """canonical item strings:  u16:field  name:field  cstr:field  rest:field  bytes6:field  rep{...}"""
+    evs = parse_sequence(ctx, an)
+    top, reps = ordered(an, evs)
+    fm = fields_of_ok(an)
+
+    def item(e):
+        f = fm.get(e.get("sym")) or fm.get(e.get("cs")) or fm.get(e.get("sid")) or ""
+        if e["kind"] == "int":
+            sg = "i" if e.get("signed") else "u"
+            return "%s%d%s%s" % (sg, e["width"] * 8, "" if e["order"] == "BE" or e["width"] == 1 else "le", (":" + f) if f != "" else "")
+        if e["kind"] == "sub":
+            nm = {"Name": "name", "CharacterString": "cstr"}.get(e["type"], "sub:" + e["type"])
+            return nm + ((":" + f) if f != "" and not nm.startswith("sub:") else "")
+        if e["kind"] == "rest":
+            return "rest" + ((":" + f) if f != "" else "")
+        if e["kind"] == "raw":
+            return ("bytes%d" % e["width"] if e["width"] is not None else "raw") + ((":" + f) if f != "" else "")
+        return "?"
+    seq = [item(e) for e in top]
+    contiguous = True
+    # contiguity of the fixed-offset part of each segment
+    by_base = {}
+    for e in top:
+        by_base.setdefault(e["base"], []).append(e)
+    gaps = []
+    for base, es in by_base.items():
+        pos = None
+        for e in es:
+            if pos is not None and e["c"] != pos and e["kind"] != "sub":
+                gaps.append("%s reads at +%d, expected +%d" % (item(e), e["c"], pos))
+            if e["kind"] == "int" or (e["kind"] == "raw" and e["width"] is not None):
+                pos = e["c"] + e["width"]
+            elif e["kind"] == "sub":
+                pos = None
+            else:
+                pos = None
+    for base, es in reps:
+        seq.append("rep{" + " ".join(item(e).split(":")[0] for e in es) + "}")
+    return seq, gaps, top, reps
+
+
+def describe_write(ctx, an):
+    """canonical item strings for the bytes a write_to body emits, in emission order"""
+    import loops as loopmod
+    b = an.b
+    lps, irr, dom = loopmod.natural_loops(b)
+    in_loop = {}
+    for h, info in lps.items():
+        for x in info["body"]:
+            in_loop[x] = h
+    order = {bi: i for i, bi in enumerate(an.rpo())}
+    seq = []
+    loop_items = {}
+    for e in sorted(an.emits, key=lambda x: order.get(x["bi"], 1 << 20)):
+        items = []
+        if e["kind"] == "nested":
+            nm = {"Name": "name", "CharacterString": "cstr"}.get(e["type"], "sub:%s" % e["type"])
+            f = field_of_place(e["recv"])
+            items.append(nm + ((":" + f) if f and not nm.startswith("sub:") else ""))
+        else:
+            s = e["src"]
+            if s[0] == "int":
+                f = field_of_place(s[3][1]) if s[3] and s[3][0] == "place" else ""
+                items.append("%s%d%s%s" % ("u", s[2] * 8, "" if s[1] == "BE" or s[2] == 1 else "le", (":" + f) if f else ""))
+            elif s[0] == "int-part":
+                f = field_of_place(s[3][1]) if s[3] and s[3][0] == "place" else ""
+                wr = s[5].c if s[5] is not None and s[5].is_const() else None
+                items.append("u%s%s" % (wr * 8 if wr else "?", (":" + f) if f else ""))
+            elif s[0] == "array":
+                for src in (s[2] or [None] * s[1]):
+                    if src is not None and src[0] == "place":
+                        f = field_of_place(src[1])
+                        items.append("u8" + ((":" + f) if f else ""))
+                    elif src is not None and src[0] == "const":
+                        items.append("u8=%s" % src[1])
+                    else:
+                        items.append("u8")
+            elif s[0] == "raw":
+                f = field_of_place(s[1])
+                ln = e["len"]
+                if ln is not None and ln.is_const():
+                    items.append("bytes%d%s" % (ln.c, (":" + f) if f else ""))
+                else:
+                    items.append("raw" + ((":" + f) if f else ""))
+            else:
+                items.append("?")
+        h = in_loop.get(e["bi"])
+        if h is not None:
+            loop_items.setdefault(h, []).extend(items)
+        else:
+            seq.extend(items)
+    for h in sorted(loop_items):
+        seq.append("rep{" + " ".join(x.split(":")[0] for x in loop_items[h]) + "}")
+    return seq
+
+
+def field_of_place(p):
+    """(*_1).priority -> priority ; (*_1).0 -> 0 ; (*_1).gateway@Domain.0 -> gateway"""
+    if p is None:
+        return ""
+    m = re.match(r"^\(\*_1\)\.([A-Za-z_0-9]+)", p)
+    if m:
+        return m.group(1)
+    m = re.search(r"\.([A-Za-z_][A-Za-z_0-9]*)$", p)
+    return m.group(1) if m and "ELEM" in p else ""
+
+
+# ====================================================================== normalisation and comparison
+
+def norm_item(x, keep_field=True):
+    x = re.sub(r"^i(\d+)", r"u\1", x)
+    if not keep_field:
+        x = x.split(":")[0]
+    return x
+
+
+def normalise(seq, side, mirror=False):
+    """make parse- and write-side sequences comparable"""
+    out = []
+    for i, x in enumerate(seq):
+        x = norm_item(x)
+        if side == "write" and x.startswith("raw") and i == len(seq) - 1 and not mirror:
+            x = "rest" + x[3:]
+        out.append(x)
+    return out
+
+
+def drop_covered_bytes(top):
+    """byte reads that are part of a wider read built from the same bytes are not separate items"""
+    wide = [(e["base"], e["c"], e["width"]) for e in top if e["kind"] == "int" and e["width"] > 1]
+    out = []
+    for e in top:
+        if e["kind"] == "int" and e["width"] == 1 and any(b == e["base"] and c <= e["c"] < c + w for b, c, w in wide):
+            continue
+        out.append(e)
+    return out
+
+
+def items_match(a, b):
+    """equal kinds / widths; field names must agree where both sides know them"""
+    ka, kb = a.split(":")[0], b.split(":")[0]
+    if {ka, kb} == {"raw", "rest"}:
+        ka = kb = "raw"      # the writer cannot tell a length-prefixed tail from "all remaining bytes"
+    if ka != kb:
+        return False
+    fa = a.split(":")[1] if ":" in a else None
+    fb = b.split(":")[1] if ":" in b else None
+    if fa is not None and fb is not None and fa != fb:
+        return False
+    return True
+
+
+def seq_match(a, b):
+    return len(a) == len(b) and all(items_match(x, y) for x, y in zip(a, b))
+
+
+def write_sequence_inlined(ctx, an, depth=0):
+    """describe_write with helper writers (non-WireFormat methods such as write_common) inlined"""
+    seq = describe_write(ctx, an)
+    if depth > 3:
+        return seq
+    helpers = [e for e in an.emits if e["kind"] == "nested" and e["fn"] not in ("write_to", "write_compressed_to")]
+    if not helpers:
+        return seq
+    out = []
+    order = {bi: i for i, bi in enumerate(an.rpo())}
+    hq = sorted(helpers, key=lambda x: order.get(x["bi"], 0))
+    hi = 0
+    for x in seq:
+        if x.startswith("sub:") and hi < len(hq) and x == "sub:%s" % hq[hi]["type"]:
+            hb = an.b.prog.bodies.get(hq[hi]["callee_id"])
+            han = ctx.whole.results.get(hb.id) if hb is not None else None
+            hi += 1
+            if han is not None:
+                out.extend(write_sequence_inlined(ctx, han, depth + 1))
+                continue
+        out.append(x)
+    return out
+
+
+def parse_sequence_clean(ctx, an):
+    seq, gaps, top, reps = describe_parse(ctx, an)
+    top2 = drop_covered_bytes(top)
+    if len(top2) != len(top):
+        # rebuild strings and gaps without the covered bytes
+        an2 = an
+        fm = fields_of_ok(an)
+        evs = top2
+        # reuse describe_parse's formatting through a tiny shim
+        seq2 = []
+        for e in evs:
+            f = fm.get(e.get("sym")) or fm.get(e.get("cs")) or fm.get(e.get("sid")) or ""
+            if e["kind"] == "int":
+                sg = "i" if e.get("signed") else "u"
+                seq2.append("%s%d%s" % (sg, e["width"] * 8, (":" + f) if f != "" else ""))
+            elif e["kind"] == "sub":
+                nm = {"Name": "name", "CharacterString": "cstr"}.get(e["type"], "sub:" + e["type"])
+                seq2.append(nm + ((":" + f) if f != "" and not nm.startswith("sub:") else ""))
+            elif e["kind"] == "rest":
+                seq2.append("rest" + ((":" + f) if f != "" else ""))
+            else:
+                seq2.append(("bytes%d" % e["width"] if e["width"] is not None else "raw") + ((":" + f) if f != "" else ""))
+        seq2 += [x for x in seq if x.startswith("rep{")]
+        gaps2 = []
+        by_base = {}
+        for e in top2:
+            by_base.setdefault(e["base"], []).append(e)
+        for base, es in by_base.items():
+            pos = None
+            for e in es:
+                if pos is not None and e["c"] != pos and e["kind"] != "sub":
+                    gaps2.append("item at +%d, expected +%d" % (e["c"], pos))
+                if e["kind"] == "int" or (e["kind"] == "raw" and e["width"] is not None):
+                    pos = e["c"] + e["width"]
+                else:
+                    pos = None
+        return seq2, gaps2
+    return seq, gaps
